@@ -15,6 +15,7 @@
 import ZlModel.Names
 import ZlModel.Scan
 import ZlModel.Generated.Registry
+import ZlModel.Generated.PanicSites
 namespace Zl.C17
 open Zl Generated
 
@@ -118,6 +119,25 @@ def orderSensitive (r : RegInfo) : Bool :=
     its loops** — hence, by `scan_perm`, does not depend on the order — **except exactly the committed
     known findings.** -/
 theorem class_table_total : registrations.all (fun r => !orderSensitive r || r.knownOrder) = true := by decide +kernel
+
+/-! ### loop-carried state (F13)
+
+A loop whose iterations look at their own element only cannot care about the order of the list. What can make a rule
+order-sensitive is a value that survives from one iteration to the next. The extractor lists every such value (header
+φ-nodes and stores through variables declared outside the loop) in every function reachable from a lint, with the way it
+is updated; everything that is not a flag (one constant), a counter or a collected list must be in the committed review
+for the present text of its function. -/
+
+/-- **No unreviewed order-carrying state in any loop reachable from a lint.** -/
+theorem loop_state_reviewed :
+    Generated.loopState.all (fun s => s.2.2 != 3 || Generated.loopStateReviewed.contains (s.1, s.2.1)) = true := by decide +kernel
+
+/-- the review holds nothing stale -/
+theorem loop_state_review_not_stale :
+    Generated.loopStateReviewed.all (fun r => Generated.loopState.any (fun s => s.1 == r.1 && s.2.1 == r.2 && s.2.2 == 3)) = true := by decide +kernel
+
+/-- the census sees loops (the statement is not about the empty list) -/
+theorem loop_state_nonempty : decide (30 < Generated.loopState.length) = true := by decide +kernel
 
 /-- the known-findings list holds nothing stale -/
 theorem known_findings_not_stale : registrations.all (fun r => !r.knownOrder || orderSensitive r) = true := by decide +kernel
